@@ -342,6 +342,16 @@ func propC16(c *Ctx) {
 							if !strings.Contains(got, ".ProvenWithdrawals[") {
 								o.Fail(c.evPos(ev), "claim restored from "+trunc(got, 120), c.Dump(p, i))
 							}
+							// ... of the SAME bridge record the id was taken from
+							if j := strings.Index(got, "data.Bridges["); j >= 0 {
+								b := got[j:]
+								b = b[:strings.Index(b, "]")+1]
+								if bridge == "" {
+									bridge = b
+								} else if bridge != b {
+									o.Fail(c.evPos(ev), methodOf(suffix)+" mixes two bridge records: id of "+bridge+", claim of "+b, c.Dump(p, i))
+								}
+							}
 							continue
 						}
 						if strings.HasPrefix(w, "data.") {
